@@ -194,8 +194,10 @@ def finish(prop, agg, tier, seed, t0, extra_cov=None, caps_hit=None):
         'wall_s': round(wall, 3), 'violations': len(unknown),
     }
     err = validate_evidence(json.loads(core.jdump(doc)))
-    os.makedirs(os.path.join(ROOT, 'evidence'), exist_ok=True)
-    with open(os.path.join(ROOT, 'evidence', pid + '.json'), 'w') as f:
+    # (VERIF_EVIDENCE_DIR: the seeded-change workflow keeps runs against changed trees out of /verif/evidence)
+    evdir = os.environ.get('VERIF_EVIDENCE_DIR') or os.path.join(ROOT, 'evidence')
+    os.makedirs(evdir, exist_ok=True)
+    with open(os.path.join(evdir, pid + '.json'), 'w') as f:
         f.write(json.dumps(json.loads(core.jdump(doc)), indent=1, sort_keys=True))
     if err:
         print('HARNESS-ERROR property=%s evidence does not validate: %s' % (pid, err))
